@@ -273,7 +273,7 @@ theorem encCtl_inv {s : EncSt} (hi : EncInv s) (r : EncReq) : EncInv (encCtl s r
   | unknown id => exact hi
 
 theorem obsRange_none {s : EncSt} {o : EncObs} (h : obsRange s o = none) :
-    (o.forceChannels = s.forceChannels ∨ (o.forceChannels = 1 ∧ s.channels = 2)) ∧
+    (o.forceChannels = s.forceChannels) ∧
     (-1 ≤ o.voiceRatio ∧ o.voiceRatio ≤ 100) ∧ (1101 ≤ o.bandwidth ∧ o.bandwidth ≤ 1105) ∧
     (1000 ≤ o.mode ∧ o.mode ≤ 1002) ∧ (o.prevMode = 0 ∨ (1000 ≤ o.prevMode ∧ o.prevMode ≤ 1002)) ∧
     (1 ≤ o.streamChannels ∧ o.streamChannels ≤ s.channels) ∧ (0 ≤ o.prevChannels ∧ o.prevChannels ≤ s.channels) ∧
@@ -341,6 +341,42 @@ theorem encAdopt_inv {s : EncSt} (hi : EncInv s) {f b ret : Int} {o : EncObs}
     · split at h
       · simp at h
       · rename_i hr; exact encAdopt_inv_of_range hi hr
+
+/-- The user settings of an encoder (everything a `OPUS_SET_*` request stores, except the
+    `voice_ratio` slot, which the analysis overwrites on every frame by design). -/
+def settingsOf (s : EncSt) : List Int :=
+  [s.application, s.userBitrate, s.forceChannels, s.maxBandwidth, s.userBandwidth, s.userForcedMode, s.useVbr,
+   s.lfe, s.useDtx, s.complexity, s.fecConfig, s.packetLoss, s.vbrConstraint, s.signalType, s.lsbDepth,
+   s.variableDuration, s.reducedDependency, s.celtDisableInv, s.celtComplexity, s.celtLossRate, s.celtLfe,
+   s.useInBandFEC]
+
+/-- **An encode call never changes a setting**: only a ctl can. -/
+theorem encAdopt_settings {s : EncSt} {f b ret : Int} {o : EncObs} (h : encodeContract s f b ret o = none) :
+    settingsOf (encAdopt s o) = settingsOf s := by
+  have key : o.forceChannels = s.forceChannels → settingsOf (encAdopt s o) = settingsOf s := by
+    intro hf; simp only [settingsOf, encAdopt, hf]
+  apply key
+  unfold encodeContract at h
+  simp only [] at h
+  split at h
+  · split at h
+    · simp at h
+    · split at h
+      · simp at h
+      · rename_i ho
+        have : o = encObserve s := by simpa using ho
+        rw [this]; rfl
+  · split at h
+    · split at h
+      · simp at h
+      · split at h
+        · simp at h
+        · rename_i ho
+          have : o = { encObserve s with rangeFinal := 0 } := by simpa using ho
+          rw [this]; rfl
+    · split at h
+      · simp at h
+      · rename_i hr; exact (obsRange_none hr).1
 
 /-! ### Histories -/
 
